@@ -523,3 +523,23 @@ def exclusion_scope(prog):
         'an exclusion is matched by `%s`: sectors of different countries that share that attribute share the exclusion' % (
             (other or ['no identity test'])[0][:80])
     return f_raw, ok, why
+
+
+def sector_alias_rewriters(prog):
+    """names of the sector-side methods of the alias pass, by role: a method of the Sector hierarchy that hands one of its own
+    parameters (the alias lookup) to the token-level renaming of its equation block (`ReplaceTokensFromLookup` /
+    `replace_token_from_lookup`).  The name `_ReplaceAliases` is what it is called today; a rename keeps the role."""
+    import ast as _ast
+    from ..loader import call_name as _cn
+    out = set()
+    for f in prog.all_functions():
+        if f.cls is None or not any(c.name == 'Sector' for c in f.cls.mro):
+            continue
+        params = set(f.params()[1:])
+        if not params:
+            continue
+        for c in _ast.walk(f.node):
+            if isinstance(c, _ast.Call) and _cn(c) in ('ReplaceTokensFromLookup', 'replace_token_from_lookup') and \
+                    any(isinstance(a, _ast.Name) and a.id in params for a in list(c.args) + [k.value for k in c.keywords]):
+                out.add(f.name)
+    return out or {'_ReplaceAliases'}
